@@ -241,16 +241,16 @@ def findEq : Bytes → Option (Bytes × Bytes)
     | none => none
     | some (k, v) => some (b :: k, v)
 
-/-- `value.replace('\\\\', '\\').replace('\\"', '"')` -/
+/-- `value.replace('\\\\', '\\').replace('\\"', '"')` (two passes, left to right, non-overlapping) -/
 def unescape1 : Bytes → Bytes
-  | 92 :: 92 :: t => 92 :: unescape1 t
-  | b :: t => b :: unescape1 t
   | [] => []
+  | [a] => [a]
+  | a :: b :: t => if a = 92 && b = 92 then 92 :: unescape1 t else a :: unescape1 (b :: t)
 
 def unescape2 : Bytes → Bytes
-  | 92 :: 34 :: t => 34 :: unescape2 t
-  | b :: t => b :: unescape2 t
   | [] => []
+  | [a] => [a]
+  | a :: b :: t => if a = 92 && b = 34 then 34 :: unescape2 t else a :: unescape2 (b :: t)
 
 def unquote (v : Bytes) : Bytes :=
   if v.length ≥ 2 && v.head? = some 34 && v.getLast? = some 34 then
@@ -295,15 +295,21 @@ structure Info where
   ctype : Bytes
   deriving Repr, DecidableEq, Inhabited
 
+def K_CT : Bytes := [67,111,110,116,101,110,116,45,84,121,112,101]   -- Content-Type
+def K_CD : Bytes := [67,111,110,116,101,110,116,45,68,105,115,112,111,115,105,116,105,111,110]   -- Content-Disposition
+def K_NAME : Bytes := [110,97,109,101]   -- name
+def K_FILENAME : Bytes := [102,105,108,101,110,97,109,101]   -- filename
+def TEXT_PLAIN : Bytes := [116,101,120,116,47,112,108,97,105,110]   -- text/plain (Part.default_content_type)
+
 def partInfo (hs : List (Bytes × Bytes)) : Info :=
-  let ct := match (hdrGet hs "Content-Type".toUTF8.toList).bind firstElement with
+  let ct := match (hdrGet hs K_CT).bind firstElement with
     | some (v, _) => v
-    | none => "text/plain".toUTF8.toList
-  match (hdrGet hs "Content-Disposition".toUTF8.toList).bind firstElement with
+    | none => TEXT_PLAIN
+  match (hdrGet hs K_CD).bind firstElement with
   | none => { name := none, filename := none, ctype := ct }
   | some (_, ps) =>
-    { name := (paramGet ps "name".toUTF8.toList).map stripQuotes,
-      filename := (paramGet ps "filename".toUTF8.toList).map stripQuotes,
+    { name := (paramGet ps K_NAME).map stripQuotes,
+      filename := (paramGet ps K_FILENAME).map stripQuotes,
       ctype := ct }
 
 /-! ### process_multipart_form_data / _old_process_multipart: the parameter dict -/
